@@ -7,14 +7,18 @@ W=${1:-8}; GLOB=${2:-*}
 fail=0
 for d in seeded/$GLOB/; do
   name=$(basename "$d")
-  chk=$(python3 -c "import json;m=json.load(open('$d/meta.json'));print((m['caught_by'] or [m['breaks_property']])[0])")
+  chks=$(python3 -c "import json;m=json.load(open('$d/meta.json'));print(' '.join(m['caught_by'] or [m['breaks_property']]))")
   wt=/tmp/seedreg-$name
   git -C /repo worktree remove --force "$wt" >/dev/null 2>&1
   git -C /repo worktree add -q --detach "$wt" HEAD || { echo "$name WORKTREE-FAILED"; fail=1; continue; }
   if ! git -C "$wt" apply "$PWD/$d/patch.diff" 2>/dev/null; then echo "$name PATCH-DOES-NOT-APPLY"; fail=1; git -C /repo worktree remove --force "$wt"; continue; fi
-  out=$(VERIF_REPO=$wt ./check "$chk" --no-evidence --no-minimise --workers "$W" 2>&1); rc=$?
+  got=""
+  for chk in $chks; do
+    out=$(VERIF_REPO=$wt ./check "$chk" --no-evidence --no-minimise --workers "$W" 2>&1); rc=$?
+    if [ $rc -eq 1 ]; then got=$chk; break; fi
+  done
   git -C /repo worktree remove --force "$wt" >/dev/null 2>&1
-  if [ $rc -eq 1 ]; then echo "$name caught by $chk"; else echo "$name NOT CAUGHT by $chk (exit $rc)"; fail=1; fi
+  if [ -n "$got" ]; then echo "$name caught by $got"; else echo "$name NOT CAUGHT by any of: $chks (last exit $rc)"; fail=1; fi
 done
 git -C /repo worktree prune
 exit $fail
